@@ -15,6 +15,7 @@ def classify_err(e):
 
 class C10(GProp):
     id = 'C10'
+    supervise = 4.0
     files = ['tephra-combinator/src/bracket.rs']
     rule = ('all token strings up to the tier bound over {three bracket kinds, plain token, separator, whitespace (filtered), '
             'rejected char} x every non-empty ordered subset of kinds passed to the combinator x abort sets x the four bracket '
